@@ -236,8 +236,58 @@ func (t *runTrace) String() string {
 	return strings.Join(tags, ",")
 }
 
+// tobj implements fooer and barer; its pointer (value type tT of the model) is what the lambdas sT produce.
+type tobj struct{ s string }
+
+func (t *tobj) Foo() string { return "foo(" + t.s + ")" }
+func (t *tobj) Bar() string { return "bar(" + t.s + ")" }
+
+type fooer interface{ Foo() string }
+type barer interface{ Bar() string }
+
+// anyText renders a value of any generated type without addresses.
+func anyText(v any) string {
+	switch x := v.(type) {
+	case nil:
+		return "nil"
+	case string:
+		return x
+	case int:
+		return strconv.Itoa(x)
+	case *tobj:
+		if x == nil {
+			return "T(nil)"
+		}
+		return "T(" + x.s + ")"
+	case In:
+		return "In(" + x.X + "," + x.Y + ")"
+	case map[string]any:
+		ks := make([]string, 0, len(x))
+		for k := range x {
+			ks = append(ks, k)
+		}
+		sort.Strings(ks)
+		var b strings.Builder
+		for _, k := range ks {
+			b.WriteString(k + "=" + anyText(x[k]) + ";")
+		}
+		return "map(" + b.String() + ")"
+	}
+	return "?"
+}
+
 func mkLambda(typ, tag string) *compose.Lambda {
 	switch typ {
+	case "a":
+		return compose.InvokableLambda(func(ctx context.Context, in any) (string, error) { traceAdd(ctx, tag); return anyText(in) + tag, nil })
+	case "sa":
+		return compose.InvokableLambda(func(ctx context.Context, in string) (any, error) { traceAdd(ctx, tag); return in + tag, nil })
+	case "sT":
+		return compose.InvokableLambda(func(ctx context.Context, in string) (*tobj, error) { traceAdd(ctx, tag); return &tobj{in + tag}, nil })
+	case "F":
+		return compose.InvokableLambda(func(ctx context.Context, in fooer) (string, error) { traceAdd(ctx, tag); return in.Foo() + tag, nil })
+	case "R":
+		return compose.InvokableLambda(func(ctx context.Context, in barer) (string, error) { traceAdd(ctx, tag); return in.Bar() + tag, nil })
 	case "i":
 		return compose.InvokableLambda(func(ctx context.Context, in int) (int, error) { traceAdd(ctx, tag); return in*3 + 1, nil })
 	case "si":
@@ -325,7 +375,7 @@ func handlerOpt(h hSpec, vt int) compose.GraphAddNodeOpt {
 	type mk struct{ pre, post, preO, postO compose.GraphAddNodeOpt }
 	var m mk
 	switch vt {
-	case tNone:
+	case tNone, tAny:
 		m = mk{preH[any, *gstate](modAny), postH[any, *gstate](modAny), preH[any, *ostate](modAny), postH[any, *ostate](modAny)}
 	case tInt:
 		m = mk{preH[int, *gstate](modInt), postH[int, *gstate](modInt), preH[int, *ostate](modInt), postH[int, *ostate](modInt)}
@@ -373,21 +423,42 @@ func nodeOpts(op Op, pass bool) []compose.GraphAddNodeOpt {
 	return opts
 }
 
-func mkBranch(cond string, ends []string) *compose.GraphBranch {
+// mkBranch: a single-choice branch from node `from`; every evaluation of its condition is recorded in
+// the run's trace ("?from"). Without targets there is nothing to choose from: a multi-choice branch
+// with an empty target set.
+func mkBranch(from, cond string, ends []string) *compose.GraphBranch {
 	sorted := sortedCopy(ends)
 	set := map[string]bool{}
 	for _, e := range ends {
 		set[e] = true
 	}
-	if cond == "i" {
+	tag := "?" + from
+	if len(sorted) == 0 {
+		switch cond {
+		case "i":
+			return compose.NewGraphMultiBranch(func(ctx context.Context, in int) (map[string]bool, error) { traceAdd(ctx, tag); return nil, nil }, set)
+		case "a":
+			return compose.NewGraphMultiBranch(func(ctx context.Context, in any) (map[string]bool, error) { traceAdd(ctx, tag); return nil, nil }, set)
+		}
+		return compose.NewGraphMultiBranch(func(ctx context.Context, in string) (map[string]bool, error) { traceAdd(ctx, tag); return nil, nil }, set)
+	}
+	switch cond {
+	case "i":
 		return compose.NewGraphBranch(func(ctx context.Context, in int) (string, error) {
+			traceAdd(ctx, tag)
 			if in < 0 {
 				in = -in
 			}
 			return sorted[in%len(sorted)], nil
 		}, set)
+	case "a":
+		return compose.NewGraphBranch(func(ctx context.Context, in any) (string, error) {
+			traceAdd(ctx, tag)
+			return sorted[len(anyText(in))%len(sorted)], nil
+		}, set)
 	}
 	return compose.NewGraphBranch(func(ctx context.Context, in string) (string, error) {
+		traceAdd(ctx, tag)
 		return sorted[len(in)%len(sorted)], nil
 	}, set)
 }
@@ -406,6 +477,13 @@ func compileOpts(opt string) []compose.GraphCompileOption {
 			out = append(out, compose.WithGraphName("g"))
 		case "store":
 			out = append(out, compose.WithCheckPointStore(&memStore{m: map[string][]byte{}}))
+		default:
+			switch {
+			case strings.HasPrefix(o, "ib="):
+				out = append(out, compose.WithInterruptBeforeNodes(strings.Split(o[3:], ",")))
+			case strings.HasPrefix(o, "ia="):
+				out = append(out, compose.WithInterruptAfterNodes(strings.Split(o[3:], ",")))
+			}
 		}
 	}
 	return out
@@ -424,6 +502,12 @@ func buildSub(sub *Sub) (g compose.AnyGraph, pan *mon.Panic, where string) {
 				w = strings.TrimPrefix(panicSignature("nested-"+sub.FE, sub.Ops, i, rule, ""), "C20/panic/")
 			}
 			return nil, res.Panic, w
+		}
+	}
+	if sub.Pre {
+		// compiled standalone first (the outcome does not matter here; its parent compiles it again)
+		if res := inst.apply(Op{K: "K"}); res.Panic != nil {
+			return nil, res.Panic, "nested-" + sub.FE + "-compile/standalone-before-added-as-node"
 		}
 	}
 	switch x := inst.(type) {
@@ -471,7 +555,7 @@ func (x *gInst) apply(op Op) (res callRes) {
 		case "E":
 			res.Err = x.g.AddEdge(op.From, op.To)
 		case "B":
-			res.Err = x.g.AddBranch(op.From, mkBranch(op.Cond, op.Ends))
+			res.Err = x.g.AddBranch(op.From, mkBranch(op.From, op.Cond, op.Ends))
 		case "K":
 			r, err := x.g.Compile(context.Background(), compileOpts(op.Opt)...)
 			res.Err = err
@@ -624,9 +708,12 @@ func (x *wInst) apply(op Op) (res callRes) {
 					h.AddInput(in.From, maps...)
 				}
 			}
+			if op.SV != "" {
+				h.SetStaticValue(compose.FieldPath{op.SV}, "sv")
+			}
 		case "WB":
 			res.NA = true
-			x.wf.AddBranch(op.From, mkBranch(op.Cond, op.Ends))
+			x.wf.AddBranch(op.From, mkBranch(op.From, op.Cond, op.Ends))
 		case "K":
 			r, err := x.wf.Compile(context.Background(), compileOpts(op.Opt)...)
 			res.Err = err
